@@ -298,11 +298,43 @@ def lib_sources(which=("kdumpfile", "addrxlat"), exclude=()):
     return out
 
 
+def _compile_objects(sources, cmd, key):
+    """Compile library sources to objects shared by every driver built from the same tree
+    with the same flags: build/cc/objs-<hash>/<dir>_<file>.o.  Returns (objs or None, log)."""
+    import fcntl
+    h = hashlib.sha256((key + repr(cmd)).encode()).hexdigest()[:16]
+    d = os.path.join(BUILD, "cc", "objs-" + h)
+    os.makedirs(d, exist_ok=True)
+    os.utime(d)
+    objs = [os.path.join(d, os.path.basename(os.path.dirname(s)) + "_" + os.path.basename(s) + ".o")
+            for s in sources]
+    with open(os.path.join(d, ".lock"), "w") as lk:
+        fcntl.flock(lk, fcntl.LOCK_EX)
+        todo = [(s, o) for s, o in zip(sources, objs) if not os.path.exists(o)]
+        log = ""
+        bad = False
+        for i in range(0, len(todo), NPROC):
+            procs = [(o, subprocess.Popen(cmd + ["-c", s, "-o", o + ".tmp"], stdout=subprocess.PIPE,
+                                          stderr=subprocess.STDOUT, universal_newlines=True))
+                     for s, o in todo[i:i + NPROC]]
+            for o, p in procs:
+                out, _ = p.communicate()
+                if p.returncode != 0:
+                    bad = True
+                    log += out
+                else:
+                    os.replace(o + ".tmp", o)
+        if bad:
+            return None, log[-4000:]
+    return objs, ""
+
+
 def cc_build(name, driver, sources=(), flags=(), sanitize=True, libs=True, cc="gcc",
              timeout=900):
     """Compile harness/<driver> + sources from /repo's current working tree.
 
-    Content-addressed under build/cc/<hash>/<name>; returns (path or None, log)."""
+    Content-addressed under build/cc/<hash>/<name>; library objects are shared between
+    drivers (build/cc/objs-<hash>/).  Returns (path or None, log)."""
     drv = os.path.join(VERIF, "harness", driver)
     hdrs = glob.glob(os.path.join(VERIF, "harness", "*.h"))
     key = repo_hash([drv] + sorted(hdrs))
@@ -315,35 +347,18 @@ def cc_build(name, driver, sources=(), flags=(), sanitize=True, libs=True, cc="g
         return exe, "cached"
     os.makedirs(d, exist_ok=True)
     cmd = [cc] + CFLAGS + (SAN if sanitize else []) + list(flags)
-    objs = []
+    srcs = list(sources)
     if len(sources) > 3:
-        # compile in parallel, one object per source
-        procs = []
-        for s in sources:
-            o = os.path.join(d, os.path.basename(os.path.dirname(s)) + "_" + os.path.basename(s) + ".o")
-            objs.append(o)
-            procs.append((s, subprocess.Popen(cmd + ["-c", s, "-o", o], stdout=subprocess.PIPE,
-                                              stderr=subprocess.STDOUT, universal_newlines=True)))
-        log = ""
-        bad = False
-        for s, p in procs:
-            o, _ = p.communicate()
-            if p.returncode != 0:
-                bad = True
-                log += o
-        if bad:
+        objs, log = _compile_objects(list(sources), cmd, repo_hash())
+        if objs is None:
             shutil.rmtree(d, ignore_errors=True)
-            return None, log[-4000:]
+            return None, log
         srcs = objs
-    else:
-        srcs = list(sources)
     rc, out = sh(cmd + ["-o", exe + ".tmp", drv] + srcs + (LIBS if libs else []), timeout=timeout)
     if rc != 0:
         shutil.rmtree(d, ignore_errors=True)
         return None, out[-4000:]
     os.replace(exe + ".tmp", exe)
-    for o in objs:
-        os.unlink(o)
     prune_cc_cache()
     return exe, out
 
